@@ -9,13 +9,13 @@ from rules import flow
 from rules.common import strip_casts, const_of, local_writes, written_value
 
 
-def canon(fn, n, inline=True, depth=0, keep=()):
+def canon(fn, n, inline=True, depth=0, keep=(), subst=None):
     """canonical string of expression n; locals with a single definition are inlined"""
     # strip casts, but keep an explicit conversion to bool visible (it changes the value)
     while n is not None and n.get('k') in ('ImplicitCastExpr', 'CStyleCastExpr', 'CXXFunctionalCastExpr', 'CXXStaticCastExpr',
                                            'ParenExpr') and kids(n):
         if n['k'] != 'ImplicitCastExpr' and n.get('t') == 'bool':
-            return 'bool(%s)' % canon(fn, kids(n)[0], inline, depth, keep)
+            return 'bool(%s)' % canon(fn, kids(n)[0], inline, depth, keep, subst)
         n = kids(n)[-1]
     n = strip_casts(n)
     if n is None:
@@ -29,11 +29,13 @@ def canon(fn, n, inline=True, depth=0, keep=()):
             base = ''
             ks = kids(n)
             if ks and ks[0]['k'] != 'CXXThisExpr':
-                base = canon(fn, ks[0], inline, depth, keep) + '.'
+                base = canon(fn, ks[0], inline, depth, keep, subst) + '.'
             return base + short(r['n'])
         if r['k'] in ('Global', 'StaticMember'):
             return short(r['n'])
         if r['k'] in ('Parm',):
+            if subst and r['n'] in subst:
+                return subst[r['n']]
             return r['n']
         if r['k'] == 'Local':
             fl = getattr(fn, 'frozen_locals', None)
@@ -41,7 +43,7 @@ def canon(fn, n, inline=True, depth=0, keep=()):
                 # a local that the reference tree did not have: show what it stands for
                 d = single_def(fn, r['id'])
                 if d is not None:
-                    return canon(fn, d, inline, depth + 1, keep)
+                    return canon(fn, d, inline, depth + 1, keep, subst)
             if r['n'] in keep or not inline or depth > 6:
                 return r['n']
             d = single_def(fn, r['id'])
@@ -49,7 +51,7 @@ def canon(fn, n, inline=True, depth=0, keep=()):
                 d = reaching_def(fn, n)
             if d is None:
                 return r['n']
-            return canon(fn, d, inline, depth + 1, keep)
+            return canon(fn, d, inline, depth + 1, keep, subst)
         if r['k'] in ('Func', 'Method'):
             return short(r['n'])
     if k == 'SubstNonTypeTemplateParmExpr' and n.get('tparm'):
@@ -57,29 +59,39 @@ def canon(fn, n, inline=True, depth=0, keep=()):
     if 'cv' in n and k in ('IntegerLiteral', 'CharacterLiteral', 'CXXBoolLiteralExpr'):
         return str(n['cv'])
     if k in ('CStyleCastExpr', 'CXXFunctionalCastExpr', 'CXXStaticCastExpr', 'ImplicitCastExpr'):
-        return canon(fn, kids(n)[0], inline, depth, keep)
+        return canon(fn, kids(n)[0], inline, depth, keep, subst)
     if k == 'CXXThisExpr':
         return 'this'
     if k == 'UnaryOperator':
-        return '%s(%s)' % (n['op'], canon(fn, kids(n)[0], inline, depth, keep))
+        return '%s(%s)' % (n['op'], canon(fn, kids(n)[0], inline, depth, keep, subst))
     if k in ('BinaryOperator', 'CompoundAssignOperator'):
         a, b = kids(n)
-        return '(%s%s%s)' % (canon(fn, a, inline, depth, keep), n['op'], canon(fn, b, inline, depth, keep))
+        return '(%s%s%s)' % (canon(fn, a, inline, depth, keep, subst), n['op'], canon(fn, b, inline, depth, keep, subst))
     if k == 'ConditionalOperator':
         c, a, b = kids(n)
-        return '(%s?%s:%s)' % (canon(fn, c, inline, depth, keep), canon(fn, a, inline, depth, keep),
-                                canon(fn, b, inline, depth, keep))
+        return '(%s?%s:%s)' % (canon(fn, c, inline, depth, keep, subst), canon(fn, a, inline, depth, keep, subst),
+                                canon(fn, b, inline, depth, keep, subst))
     if k == 'ArraySubscriptExpr':
         a, b = kids(n)
-        return '%s[%s]' % (canon(fn, a, inline, depth, keep), canon(fn, b, inline, depth, keep))
+        return '%s[%s]' % (canon(fn, a, inline, depth, keep, subst), canon(fn, b, inline, depth, keep, subst))
     if k == 'CXXOperatorCallExpr':
         ks = kids(n)[1:]
         op = n.get('op')
         if len(ks) == 1:
-            return '%s(%s)' % (op, canon(fn, ks[0], inline, depth, keep))
+            return '%s(%s)' % (op, canon(fn, ks[0], inline, depth, keep, subst))
         if op == '[]':
-            return '%s[%s]' % (canon(fn, ks[0], inline, depth, keep), canon(fn, ks[1], inline, depth, keep))
-        return '(%s%s%s)' % (canon(fn, ks[0], inline, depth, keep), op, canon(fn, ks[1], inline, depth, keep))
+            return '%s[%s]' % (canon(fn, ks[0], inline, depth, keep, subst), canon(fn, ks[1], inline, depth, keep, subst))
+        return '(%s%s%s)' % (canon(fn, ks[0], inline, depth, keep, subst), op, canon(fn, ks[1], inline, depth, keep, subst))
+    if k == 'CallExpr' and depth <= 6:
+        # a helper the reference tree did not have, consisting of one return: show what it computes
+        prog_ = getattr(fn, 'prog', None)
+        callee = prog_.funcs.get(n.get('callee', {}).get('fid')) if prog_ is not None else None
+        if callee is not None and callee.body is not None and prog_.is_new_function(callee) and callee.file.startswith(prog_.root):
+            st = [x for x in kids(callee.body) if not (x.get('mac') == 'assert' or (x['k'] == 'CXXStaticCastExpr' and x.get('ck') == 'ToVoid'))]
+            args_ = kids(n)[1:]
+            if len(st) == 1 and st[0]['k'] == 'ReturnStmt' and kids(st[0]) and len(args_) == len(callee.params):
+                sub = {q['name']: canon(fn, a, inline, depth, keep, subst) for q, a in zip(callee.params, args_)}
+                return canon(callee, kids(st[0])[0], inline, depth + 1, (), sub)
     if k in ('CallExpr', 'CXXMemberCallExpr'):
         c = n.get('callee', {})
         ks = kids(n)
@@ -89,14 +101,14 @@ def canon(fn, n, inline=True, depth=0, keep=()):
         if k == 'CXXMemberCallExpr' and ks:
             obj = kids(ks[0])
             if obj and obj[0]['k'] != 'CXXThisExpr':
-                pre = canon(fn, obj[0], inline, depth, keep) + '.'
-        return '%s%s(%s)' % (pre, name, ','.join(canon(fn, a, inline, depth, keep) for a in args))
+                pre = canon(fn, obj[0], inline, depth, keep, subst) + '.'
+        return '%s%s(%s)' % (pre, name, ','.join(canon(fn, a, inline, depth, keep, subst) for a in args))
     if k == 'MemberExpr':
         ks = kids(n)
-        return (canon(fn, ks[0], inline, depth, keep) + '.' if ks else '') + '?'
+        return (canon(fn, ks[0], inline, depth, keep, subst) + '.' if ks else '') + '?'
     if k == 'CXXConstructExpr':
         return '%s(%s)' % (short(n.get('callee', {}).get('n', 'ctor')),
-                           ','.join(canon(fn, a, inline, depth, keep) for a in kids(n)))
+                           ','.join(canon(fn, a, inline, depth, keep, subst) for a in kids(n)))
     if 'cv' in n:
         return str(n['cv'])
     return k
